@@ -227,7 +227,7 @@ def gen_layer2(rng, tier):
         for nm in sorted(set([name, name.upper(), name.lower()])):
             if rng.random() < 0.45:
                 tree[nm + ext] = 'content of %s%s' % (nm, ext)
-    kind = rng.choice(['py', 'json', 'anyjson-upper'])
+    kind = rng.choice(['py', 'json', 'anyjson-upper', 'anydefault'])
     cap = None
     if rng.random() < 0.3:
         # a size limit on the borrower's reader; copies around the limit, with multi-byte characters early on
@@ -248,7 +248,7 @@ def gen_layer2(rng, tier):
             elif r_ < 0.75:
                 tree[fn] = tree[fn] + '\x0c\x00\u2028 end'
     return {'layer': 2, 'name': name, 'tree': tree, 'kind': kind, 'cap': cap, 'genTexts': rng.random() < 0.5, 'req_texts': rng.random() < 0.5,
-            'late_flavour': rng.random() < 0.35,
+            'late_flavour': rng.random() < 0.35, 'symlink_sub': rng.random() < 0.2,
             'lowcase': rng.random() < 0.5, 'listing_seed': rng.randrange(1 << 30),
             'rate': {'p': 0.05, 'seed': rng.randrange(1 << 30), 'sites': ['os.stat', 'open', 'file.read', 'os.listdir']} if rng.random() < 0.3 else None}
 
@@ -266,14 +266,24 @@ def run_layer2(scn):
         d = os.path.join(root, 'borrow')
         with core.unhooked():
             os.makedirs(d)
+            fd_ = d
+            if scn.get('symlink_sub'):
+                # the pre-transformed files are kept elsewhere and reached through a symbolic link below the borrower's directory
+                fd_ = os.path.join(root, 'store')
+                os.makedirs(fd_)
+                os.symlink(fd_, os.path.join(d, 'current'))
             for fn, content in sorted(scn['tree'].items()):
-                with open(os.path.join(d, fn), 'w', encoding='utf-8', newline='') as f:
+                with open(os.path.join(fd_, fn), 'w', encoding='utf-8', newline='') as f:
                     f.write(content)
         w = core.World(root=root, rate=scn.get('rate'), listing_seed=scn.get('listing_seed'))
         reader = FileReader(d)
         if scn['kind'] == 'py':
             b = PyFileBorrower(reader) if scn.get('late_flavour') else PyFileBorrower(reader, genTexts=scn['genTexts'])
             exts = ['.py']
+        elif scn['kind'] == 'anydefault':
+            # no extension configured: this borrower has nothing to offer (in particular not the extension-less ASN.1 file)
+            b = AnyFileBorrower(reader) if scn.get('late_flavour') else AnyFileBorrower(reader, genTexts=scn['genTexts'])
+            exts = []
         else:
             b = (AnyFileBorrower(reader) if scn.get('late_flavour') else AnyFileBorrower(reader, genTexts=scn['genTexts'])).setOptions(exts=['.json'])
             exts = ['.json']
@@ -302,14 +312,14 @@ def run_layer2(scn):
                 V('C19.2-flavour-order', 'borrower of flavour texts=%s served a request for texts=%s' % (scn['genTexts'], scn['req_texts']), what='flavour-real')
             if not any(fn.endswith(e) for e in exts):
                 V('C19.6-extensions', 'borrower with extensions %s returned file %s' % (exts, fn), what='wrong-extension', file=fn)
-            stem = fn[:-len(exts[0])] if fn.endswith(exts[0]) else fn
+            stem = fn[:-len(exts[0])] if exts and fn.endswith(exts[0]) else fn
             if stem.lower() != scn['name'].lower() and stem.lower() not in (scn['name'].lower() + '-mib', scn['name'].lower().replace('-mib', '')):
                 V('C19.6-extensions', 'borrower returned unrelated file %s for %s' % (fn, scn['name']), what='unrelated', file=fn)
             if scn['tree'].get(fn) != res[2]:
                 V('C19.3-verbatim', 'borrowed text differs from the file content', what='content')
         elif res[0] == 'pkgerror' and not w.fired and scn['genTexts'] == scn['req_texts'] and not scn.get('cap'):
             # must find it when an exact-name file with the right extension exists
-            if (scn['name'] + exts[0]) in scn['tree']:
+            if exts and (scn['name'] + exts[0]) in scn['tree']:
                 V('C19.6-extensions', 'borrower did not find existing %s%s (%s)' % (scn['name'], exts[0], res[1]), what='not-found')
         fp, fph = w.fingerprints(extra=[res[0], res[1]])
         return {'violations': viol, 'sig': 'L2|%s|%s|%s|%s|%s' % (scn['kind'], res[0], res[1], scn['genTexts'] == scn['req_texts'], sorted(w.fired)),
